@@ -122,7 +122,8 @@ impl RaftStorage {
                 lemma_filter_by(s, keep, below(from));
                 lemma_filter_inc(s, below(from));
             }
-//@before "for entry in"
+//@name E "for (\w+) in entries"
+//@before "for @{E} in"
         let ghost log0 = log@;
 //@loop 1 iter=it
             invariant log@ == log0 + it.seq().take(it.index() as int)   //#pushed_prefix
